@@ -211,6 +211,13 @@ def param_case(fn, threads):
                 bl.append([float(v) for v in sub.compressed()])
             tiles.append(bl)
         count = ds.count
+        # what the FILE says (not what the reader object remembers of it): the model and the in-paint threshold the statistics are defined with
+        import yaml
+        tags = ds.tags()
+        if 'FUSE_MODEL' in tags and 'FUSE_R2_INPAINT_THRESH' in tags:
+            model = str(tags['FUSE_MODEL']).replace('_', '-')
+            thresh = yaml.safe_load(tags['FUSE_R2_INPAINT_THRESH'])
+            thresh = None if thresh in (None, 'None') else float(thresh)        # (None is written to the tag as the text 'None')
     def close(a, b):
         import math
         try:
